@@ -6,6 +6,8 @@
      event  =  S <gop>* ;            new set object: the operations, then SendSet
             |  C <k> <gop>* ;        the same on the set object of the k-th S event (0-based)
             |  W                     wait for the template refresh (UDP)
+            |  X <seq0>              close the exporting process, start a new one (same collector,
+                                     same observation domain), set its counter to seq0
      gop    =  P.. | N.. A.. | L | R             as in Driver/SetShow.v (each A makes fresh element
                                                  objects: pool entry number = how many A came before)
             |  AS <form> <id> <tag>              AddRecord*(the element objects of pool entry tag, id)
@@ -87,6 +89,11 @@ Fixpoint parse_gevents (fuel : nat) (l : list string) : option (list gevent) :=
           | _, _ => None
           end
       | "W" :: r => option_map (cons (GRefresh 0%N)) (parse_gevents f r)
+      | "X" :: q :: r =>
+          match parse_N q with
+          | Some q' => option_map (cons (GReconnect q')) (parse_gevents f r)
+          | None => None
+          end
       | _ => None
       end
   end.
@@ -108,7 +115,8 @@ Definition gouts (fx : fixes) (c : gcase) : list gout := grun fx (ginit c) (gc_e
 (* ---- structured observation ---- *)
 Inductive gobs :=
 | GOSend (o : sobs)
-| GORefresh (ws : list wobs) (t : string).   (* the refresh messages, sorted by their bytes *)
+| GORefresh (ws : list wobs) (t : string)    (* the refresh messages, sorted by their bytes *)
+| GOReconn (stray : string).                 (* what arrived from the closed process without a successful call *)
 
 (* lexicographic order on byte strings (the order of Go's bytes.Compare) *)
 Fixpoint bytes_leb (a b : list byte) : bool :=
@@ -142,6 +150,7 @@ Definition gobs_of (full : bool) (o : gout) : gobs :=
   | ORefresh _ _ r =>
       let ws := sort_bytes (refresh_wires r) in
       GORefresh (map (wobs_of full) ws) (match ws with [] => "-" | _ => "ok" end)
+  | OReconn _ _ => GOReconn "-"
   end.
 
 Definition grun_all (fx : fixes) (c : gcase) : list gout * world := grun2 fx (ginit c) (gc_events c).
@@ -157,6 +166,7 @@ Definition show_gobs (o : gobs) : string :=
   | GOSend s => show_sobs s
   | GORefresh ws t =>
       "f=" ++ show_nat (List.length ws) ++ String.concat "" (map (fun w => " " ++ show_wobs w) ws) ++ " t=" ++ t
+  | GOReconn s => "x=" ++ s
   end.
 Definition show_ghist (p : list gobs * fobs) : string :=
   unwords (map show_gobs (fst p) ++ [show_fobs (snd p)])%list.
@@ -192,6 +202,12 @@ Fixpoint parse_gobs (fuel : nat) (l : list string) : option (list gobs * fobs) :
           | _, _, _ => None
           end
       | r :: rest0 =>
+          match strip_prefix "x=" r with
+          | Some s => match parse_gobs f rest0 with
+                      | Some (os, fo) => Some (GOReconn s :: os, fo)
+                      | None => None
+                      end
+          | None =>
           match strip_prefix "f=" r with
           | Some k =>
               match parse_nat k with
@@ -219,6 +235,7 @@ Fixpoint parse_gobs (fuel : nat) (l : list string) : option (list gobs * fobs) :
                   end
               | [] => None
               end
+          end
           end
       | _ => None
       end
